@@ -91,11 +91,11 @@ CHECKS["C02"] = {
     "parallel": 5,
     "quick": _qbft_fn([4], [(4, 6)], [{"n": 4, "m": 1, "jmax": 0, "typ": [2, 3, 4]}]),
     "thorough": _qbft_fn([3, 4, 5, 6, 7], [(4, 6), (4, 7), (5, 8), (7, 10)],
-                         [{"n": 4, "m": 1, "jmax": 0, "typ": [1, 2, 3, 4, 5]}, {"n": 4, "m": 1, "jmax": 3, "typ": [2, 4]},
-                          {"n": 4, "m": 2, "jmax": 0, "typ": [2, 4]}, {"n": 5, "m": 1, "jmax": 0, "typ": [2, 3, 4]}]),
+                         [{"n": 4, "m": 1, "jmax": 0, "typ": [1, 2, 3, 4, 5]}, {"n": 4, "m": 1, "jmax": 3, "typ": [2]},
+                          {"n": 4, "m": 2, "jmax": 0, "typ": [2]}, {"n": 5, "m": 1, "jmax": 0, "typ": [2, 3, 4]}]),
     "bounds": {
         "quick": "n=4 (Q=3,f=1); justification lists <= Q+1 (ROUND-CHANGE, DECIDED) / <= 6 (PRE-PREPARE); classify on a buffer of one message per source plus the received one, every field symbolic; Quorum/Faulty arithmetic n=1..32 concretely",
-        "thorough": "n in 3..7; PRE-PREPARE justifications up to 2Q; classify buffers with up to 2 messages per source or 3 nested justifications",
+        "thorough": "n in 3..7; PRE-PREPARE justifications up to 2Q; classify of PREPARE on buffers with up to 2 messages per source or 3 nested justifications (the same for ROUND-CHANGE did not finish within 3000 s per case and is not registered)",
     },
     "outside": "whole-cluster agreement is not encoded as one product; it follows from the local obligations by the composition argument in DESIGN.md section 3 (model-level). Histories through the real Run loop are covered by the Run-level harness where registered. Rounds >= 200, longer justification lists.",
     "assumptions": _qbft_assumptions,
@@ -460,17 +460,25 @@ CHECKS["C10"] = {
         {"harness": "VerifC10Peer", "params": {"second": [0, 1]}, "redirects": _C10R},
         {"harness": "VerifC10Randao", "params": {}, "redirects": _C10R},
         {"harness": "VerifC10Sync", "params": {"second": [0, 1]}, "redirects": _C10R},
+        {"pkg": "./core/validatorapi", "harness": "VerifC10VapiSync", "params": {"m": 1, "vals": [1, 2, 3]}},
+        {"pkg": "./core/validatorapi", "harness": "VerifC10VapiSync", "params": {"m": 2, "vals": [5, 9, 6, 13]}},
+        {"pkg": "./core/validatorapi", "harness": "VerifC10VapiExit", "params": {"val": [1, 2, 3]}},
+        {"pkg": "./core/validatorapi", "harness": "VerifC10VapiAtt", "params": {"val": [1, 2, 3]}},
     ],
     "thorough": [
         {"harness": "VerifC10Peer", "params": {"second": [0, 1]}, "redirects": _C10R, "cross": True},
         {"harness": "VerifC10Randao", "params": {}, "redirects": _C10R, "cross": True},
         {"harness": "VerifC10Sync", "params": {"second": [0, 1]}, "redirects": _C10R, "cross": True},
+        {"pkg": "./core/validatorapi", "harness": "VerifC10VapiSync", "params": {"m": 1, "vals": [1, 2, 3]}, "cross": True},
+        {"pkg": "./core/validatorapi", "harness": "VerifC10VapiSync", "params": {"m": 2, "vals": [5, 9, 6, 13]}, "cross": True},
+        {"pkg": "./core/validatorapi", "harness": "VerifC10VapiExit", "params": {"val": [1, 2, 3]}, "cross": True},
+        {"pkg": "./core/validatorapi", "harness": "VerifC10VapiAtt", "params": {"val": [1, 2, 3]}, "cross": True},
     ],
     "bounds": {
-        "quick": "peer side only: one peer message with one partial signature; validator (two in the lock, one unknown), claimed share index (any byte), signed content, epoch (fork change at epoch 100), domain name (attester / randao / exit), slot (gated >= 200) and every ingredient of what the signature was actually made over (key, content, domain, epoch, validity) symbolic, a symbolically failing epoch lookup, optionally a second entry of another validator that is valid or not; once with a minimal Eth2SignedData type, once with the real core.SignedRandao, once with real core.SignedSyncMessage objects (slot-based epoch lookup through a beacon client whose first Spec call may fail; one or two validators in the set)",
+        "quick": "validator-client side: the real validatorapi.Component (NewComponent, verifyPartialSig) for SubmitSyncCommitteeMessages (1-2 messages), SubmitVoluntaryExit and SubmitAttestations (one Electra attestation): the named validator concrete per case (two in the lock, one not), slot / content / epoch and every ingredient of what the signature was made over (key id, content, fork epoch, validity) symbolic: accepted, and subscribers called, exactly when the signature verifies for the object's own root, domain and epoch under THIS node's public share; peer side: one peer message with one partial signature; validator (two in the lock, one unknown), claimed share index (any byte), signed content, epoch (fork change at epoch 100), domain name (attester / randao / exit), slot (gated >= 200) and every ingredient of what the signature was actually made over (key, content, domain, epoch, validity) symbolic, a symbolically failing epoch lookup, optionally a second entry of another validator that is valid or not; once with a minimal Eth2SignedData type, once with the real core.SignedRandao, once with real core.SignedSyncMessage objects (slot-based epoch lookup through a beacon client whose first Spec call may fail; one or two validators in the set)",
         "thorough": "same, both solvers",
     },
-    "outside": "the validator-client side (validatorapi.verifyPartialSig and the Submit*/Proposal/*Selections handlers: each needs its own eth2 input objects - not encoded); the wire decoding core.ParSignedDataSetFromProto (redirected to the set under test; C14); the other real Eth2SignedData types' Epoch/DomainName/MessageRoot implementations; the BLS algebra (ideal Verify plugged in through tbls.SetImplementation)",
+    "outside": "the other validator-client handlers (Proposal/randao, SubmitProposal incl. propDataMatchesDuty, aggregate attestations, selections, sync contributions, registrations) and pre-Electra attestations (validator looked up through the duty definition); the wire decoding core.ParSignedDataSetFromProto (redirected to the set under test; C14); the other real Eth2SignedData types' Epoch/DomainName/MessageRoot implementations; the BLS algebra (ideal Verify plugged in through tbls.SetImplementation)",
     "assumptions": [
         "ideal BLS Verify: a signature token verifies exactly for its key and the signed data",
         "SSZ HashTreeRoot = ideal injective hash of the transcript of the type's own HashTreeRootWith",
